@@ -19,6 +19,10 @@ def impl_replay(case):
     M = G.build_model(case["spec"])
     I = SafeModelCSimInterface(M) if case.get("safe") else ModelCSimInterface(M)
     T = np.array(case["times"], dtype=float); dt = float(T[1] - T[0])
+    if case.get("strided_grid"):
+        # the same time points handed over as a non-contiguous view (a column / slice of a larger array), as users' grids often are
+        # (seeded change S5_C05: the simulator read the grid through a raw pointer, ignoring the stride)
+        Tb = np.full(2 * len(T), -7.0); Tb[::2] = T; T = Tb[::2]
     I.py_set_dt(dt); I.py_set_initial_time(case.get("t0", 0.0))
     x0 = np.array(I.py_get_initial_state(), dtype=float).copy()
     p_before = np.array(M.get_parameter_values(), dtype=float).copy()
@@ -46,18 +50,25 @@ def impl_replay(case):
     if case["kind"] == "ssa":
         res = SSASimulator().py_simulate(I, T)
     elif case["kind"] == "dssa":
-        q = ArrayDelayQueue.setup_queue(I.py_get_num_reactions(), len(T), dt)
+        # case["queue_cols"]: a user-made queue SHORTER than the simulated span: the ring buffer wraps (seeded change S5_C06)
+        q = ArrayDelayQueue.setup_queue(I.py_get_num_reactions(), int(case.get("queue_cols") or len(T)), dt)
         res = DelaySSASimulator().py_delay_simulate(I, q, T)
     else:
         vs = case["volume"]
         if vs["type"] == "base":
             v = Volume(); v.py_set_volume(vs["V0"]); vtoks = ["base", fhex(vs["V0"])]
+        elif vs["type"] == "sd":
+            # StateDependentVolume: growth rate from an expression, division when the volume exceeds the division volume (no noise:
+            # normal_rv(1, 0) = 1 exactly, two uniforms consumed by initialize)
+            v = StateDependentVolume(); v.setup(vs["avg"], 0.0, vs["growth"], M)
+            v.py_initialize(x0.copy(), p_before.copy(), case.get("t0", 0.0), vs["V0"]); pre = 2
+            vtoks = ["sd"] + G.term_tokens(M.parse_general_expression(vs["growth"])) + [fhex(vs["avg"]), fhex(vs["V0"])]
         elif vs["type"] == "tt":
             v = StochasticTimeThresholdVolume(vs["cycle"], vs["avg"], vs["noise"])
             v.py_initialize(x0.copy(), p_before.copy(), case.get("t0", 0.0), vs["V0"]); pre = 2
             vtoks = ["tt?", fhex(vs["cycle"]), fhex(vs["avg"]), fhex(vs["noise"]), fhex(vs["V0"])]
         if case["kind"] == "dvssa":
-            q = ArrayDelayQueue.setup_queue(I.py_get_num_reactions(), len(T), dt)
+            q = ArrayDelayQueue.setup_queue(I.py_get_num_reactions(), int(case.get("queue_cols") or len(T)), dt)
             res = DelayVolumeSSASimulator().py_delay_volume_simulate(I, q, v, T)
         else:
             res = VolumeSSASimulator().py_volume_simulate(I, v, T)
@@ -78,10 +89,10 @@ def impl_replay(case):
     out["species_after"] = [fhex(v) for v in np.asarray(I.py_get_initial_state(), dtype=float)]
     if case["kind"] in ("dssa", "dvssa"):
         qf = res.py_get_delay_queue(); c = qf.py_copy(); nrx = I.py_get_num_reactions()
-        qd = [fhex(c.py_get_next_queue_time())]
-        for _ in range(len(T)):
+        qd = [fhex(c.py_get_next_queue_time())]; ncols_ = int(case.get("queue_cols") or len(T))
+        for _ in range(ncols_):
             a = np.zeros(nrx); c.py_get_next_reactions(a); qd += [fhex(v) for v in a]; c.py_advance_time()
-        out["queue"] = qd; out["ncols"] = len(T)
+        out["queue"] = qd; out["ncols"] = ncols_
     if case["kind"] in ("vssa", "dvssa"):
         out["vols"] = [fhex(v) for v in np.asarray(res.py_get_volume())]; out["divided"] = int(bool(res.py_cell_divided()))
         out["vtoks"] = vtoks
@@ -96,6 +107,7 @@ def driver_line(case, r):
     if case["kind"] in ("vssa", "dvssa"):
         vt = r["vtoks"]
         if vt[0] == "base": toks += ["base", vt[1]]
+        elif vt[0] == "sd": toks += vt
         else:
             # StochasticTimeThresholdVolume.initialize: division time from the first two uniforms of the stream
             toks += ["ttinit"] + vt[1:] + r["raws"][:2]
